@@ -271,6 +271,7 @@ package template
 
 //@ func decodeURLPrefix(prefix string) (r string, err error)
 //@   serves C14 C02
+//@   option uses C14.numeric_references_terminated C14.numeric_references_complete
 //@   ensures spec: isnil(err) == decodeok(prefix)
 //@   ensures decoded: isnil(err) ==> seqeq(r, unesc(prefix))
 
